@@ -293,6 +293,17 @@ class C24:
         cls = getattr(lru_mod, sc["cls"])
         cap = sc["capacity"]
         log = []
+        # the sequential part also runs on the simulated lock: a lock left held by an earlier
+        # operation (an exception path without release) then raises instead of hanging the run
+        saved_lock = lru_mod.Lock
+        lru_mod.Lock = SimLock
+        SimLock.sim = None
+        try:
+            return self._run_seq_body(sc, res, st, cls, cap, log)
+        finally:
+            lru_mod.Lock = saved_lock
+
+    def _run_seq_body(self, sc, res, st, cls, cap, log):
         try:
             cache = cls(cap)
             ctor = ("ok", None)
@@ -324,6 +335,11 @@ class C24:
             got = apply_real(cache, op)
             bump(st, "seq.ops")
             log.append((op, got))
+            if got[0] == "err" and got[1] == "SimSelfDeadlock":
+                res["violations"].append({
+                    "oracle": "seq.deadlock", "sig": f"seq:{sc['cls']}:deadlock",
+                    "detail": {"step": i, "op": op, "note": "the lock was left held by an earlier operation"}})
+                break
             if tuple(got) != tuple(want):
                 res["violations"].append({
                     "oracle": "seq.result", "sig": f"seq:{sc['cls']}:{op[0]}:result",
